@@ -46,10 +46,12 @@ def _expand(task):
             ctx2 = s.build(start, h2)
             canon = _digest(s.canon(ctx2))
         except Exception as e:  # build itself must not raise: apply() catches
-            out.append((a, None, [("harness:build-raised", repr(e))], c))
+            out.append((a, None, [("harness:build-raised", repr(e))], c, None))
             continue
         viol = s.check(start, h2)
-        out.append((a, canon, viol, c))
+        # optional vacuity statistic: is this transition one on which the oracle had something to decide?
+        nt = s.nontrivial(ctx2, h2) if hasattr(s, "nontrivial") else None
+        out.append((a, canon, viol, c, nt))
     return out
 
 
@@ -62,7 +64,8 @@ def bfs(system, run, max_depth, max_dev=None, state_cap=None):
     _SYSTEM = system
     seen = set()
     frontier = []  # (start, hist, remaining budget)
-    states = transitions = pruned = 0
+    states = transitions = pruned = checked = 0
+    nontrivial = set()
     big = 10**9 if max_dev is None else max_dev
     for st in system.starts():
         ctx = system.build(st, [])
@@ -82,8 +85,12 @@ def bfs(system, run, max_depth, max_dev=None, state_cap=None):
         results = harness.pmap(_expand, frontier, chunksize=max(1, len(frontier) // 256))
         nxt = []
         for (st, hist, budget), recs in zip(frontier, results):
-            for a, canon, viol, c in recs:
+            for a, canon, viol, c, nt in recs:
                 transitions += 1
+                if nt is not None:
+                    checked += 1
+                    if nt and canon is not None:
+                        nontrivial.add(canon)
                 if viol:
                     pruned += 1
                     for k, det in viol:
@@ -110,4 +117,6 @@ def bfs(system, run, max_depth, max_dev=None, state_cap=None):
         "capped": capped,
         "per_depth": per_depth,
         "last_frontier": len(frontier),
+        "oracle_transitions": checked,
+        "nontrivial_states": len(nontrivial),
     }
